@@ -44,7 +44,7 @@ def gen_cases(seed, chunk, n, tier):
         dtype = rng.choice(["float64", "complex128", "float32", "complex64"])
         keep = rng.choice([0.4, 0.7, 1.0])
         pending = rng.random() < 0.5
-        kind = rng.choice(["transpose"] * 3 + ["tensordot"] * 5 + ["trace", "matmul", "einsum"])
+        kind = rng.choice(["transpose"] * 3 + ["tensordot"] * 5 + ["trace", "matmul", "einsum", "revsign"])
         meta = dict(sym=sym, static=static, kind=kind, pending=pending)
         orc = None
         if kind == "transpose":
@@ -69,6 +69,21 @@ def gen_cases(seed, chunk, n, tier):
                 orc = f"transpose raised {res[0].get('msg')}"
             nontrivial = _odd_legs(a) >= 2
             meta.update(parity=int(a.parity))
+        elif kind == "revsign":
+            # the `perm=None` shortcut (virtual reversal of all axes) against the general formula
+            a = gen.rand_array(rng, sym, ndim=rng.randint(1, 5), fermi=True, static=static, dtype=dtype,
+                               keep=keep, pending=pending)
+            steps = [{"out": ["c"], "op": "phase_transpose", "in": ["a"], "params": {}}]
+            env = {"a": a}
+            res, env2 = impl.run_prog(env, steps)
+            if "ok" in res[0]:
+                rev = list(range(a.ndim))[::-1]
+                exp, _ = oracle.gtranspose(oracle.dense(a), oracle.parity_vectors(a), rev)
+                exp = np.transpose(exp, rev)  # signs only, layout unchanged
+                orc = oracle.embed_compare(env2["c"], exp, list(a.indices))
+            else:
+                orc = f"phase_transpose raised {res[0].get('msg')}"
+            nontrivial = _odd_legs(a) >= 2
         elif kind == "tensordot":
             pa = rng.choice([None, 0, 1])
             pb = rng.choice([None, 0, 1])
